@@ -32,12 +32,17 @@ try:
     tests = re.findall(r"go test (.*?)(?:\s+#|$|&&|;)", demo)
     def local(dst):
         # demo commands name the seeding agent's own worktree; redirect into ours
-        dst = re.sub(r"^/tmp/wt/seed-C\d\d/", "", dst)
+        dst = re.sub(r"^/tmp/wt/seed\d?-C\d\d/", "", dst)
         return os.path.join(wt, dst)
     copies = [(fn, local(dst)) for fn, dst in copies]
     for fn, dst in copies:
         shutil.copy(os.path.join(seed, fn), dst)
     cmd = "go test -count=1 " + (tests[0].strip() if tests else "./...")
+    # demonstrations delivered as a script `run.sh [worktree]` (generate a parser into the tree, test it, clean up)
+    scripts = re.findall(r"(?:sh\s+)?(\S*/run\.sh)", demo)
+    if scripts and not copies:
+        script = os.path.join(seed, os.path.relpath(scripts[0], re.match(r"(.*?/C\d\d-\d+)/", scripts[0]).group(1))) if re.match(r"(.*?/C\d\d-\d+)/", scripts[0]) else scripts[0]
+        cmd = f"sh {script} {wt}"
     rc1, out1 = sh(cmd, cwd=wt); res["demo_fails_with_change"] = rc1 != 0
     sh(f"git apply -R {seed}/patch.diff", cwd=wt)
     rc2, out2 = sh(cmd, cwd=wt); res["demo_passes_without"] = rc2 == 0
